@@ -12,7 +12,7 @@ lines = ["# Sensitivity: seeded changes and which check catches them", "",
          "with a VIOLATION line. Patches that no longer applied after a `fix:` commit were re-based (original kept as",
          "`patch.orig-*.diff`); C12-2 had been neutralised by fix 77caf72 and was re-based so that it manifests again.",
          "Rounds: plain names = round 1, `-r2-` = round 2 (helpers, less-travelled branches, cooperating edits), `-r3-` = round 3",
-         "(changes designed to be overlooked by a generated-input checker), `-r4-` = round 4 (a further set, 28 of 57 missed at first; see DESIGN 11.7), `-r5-` = round 5 (realistic maintainer changes, 56 of 59 caught at first; DESIGN 11.9).",
+         "(changes designed to be overlooked by a generated-input checker), `-r4-` = round 4 (a further set, 28 of 57 missed at first; see DESIGN 11.7), `-r5-` = round 5 (realistic maintainer changes, 56 of 59 caught at first; DESIGN 11.9), `-r6-` / `-r7-` = rounds 6 and 7 (the same measurement again: 56 of 60, 56 of 59; DESIGN 11.11, 11.13), `-r8-` = round 8 (two cooperating sites / multi-step histories, 37 of 39 caught at first; DESIGN 11.15).",
          "`seeded/RESULTS-seed2.json` holds the same run at VERIF_SEED=2. A row whose result names two checks was run against both", 
          "(`check_with` in its meta.json, with the reason).", "",
          "| seeded | property | what was changed | needs to manifest | result | s | buckets reported |", "|---|---|---|---|---|---|---|"]
